@@ -165,69 +165,15 @@ theorem C17_map_key (x : Ext) (fuel : Nat) (env : Env) (kt vt : Ty) (min max : O
 
 /-! ### objects -/
 
-theorem lookupS_setKey_ne {α} {k id : String} (v : α) (m : List (String × α)) (hne : k ≠ id) :
-    lookupS k (setKey id v m) = lookupS k m := by
-  induction m with
-  | nil => simp [setKey, lookupS, hne]
-  | cons p rest ih =>
-    obtain ⟨k', v'⟩ := p
-    simp only [setKey]
-    split
-    · rename_i heq
-      have : id = k' := by simpa using heq
-      subst this
-      simp [lookupS, hne]
-    · simp only [lookupS]
-      split
-      · rfl
-      · exact ih
-
-/-- If property `id` is present and its value is the only fault - every OTHER present property is
-    accepted by its type and not disabled - the object reports the value's error with the property
-    name prefixed. -/
-theorem unserProps_single_fault {rec : Rec} {env : Env} (id : String) (p : PropT) (d : V) (e : Err) :
-    ∀ (props : List (String × PropT)) (acc : List (String × V)),
-      (id, p) ∈ props → (props.map Prod.fst).Nodup →
-      lookupS id acc = some d → p.disabled = false → rec .U env p.ty d = .err e →
-      (∀ id' p' d', (id', p') ∈ props → id' ≠ id → lookupS id' acc = some d' →
-          p'.disabled = false ∧ ∃ r, rec .U env p'.ty d' = .ok r) →
-      unserProps rec env props acc = .err ⟨true, id :: e.path⟩
-  | [], _, hm, _, _, _, _, _ => by simp at hm
-  | (id0, p0) :: rest, acc, hm, hnd, hl, hdis, hbad, hothers => by
-    simp only [unserProps]
-    have hnd' : (rest.map Prod.fst).Nodup := by
-      simp only [List.map_cons, List.nodup_cons] at hnd; exact hnd.2
-    rcases List.mem_cons.mp hm with heq | hm'
-    · cases heq
-      simp [hl, hdis, hbad, addSeg]
-    · have hne : id0 ≠ id := by
-        intro he; subst he
-        simp only [List.map_cons, List.nodup_cons] at hnd
-        exact hnd.1 (List.mem_map.mpr ⟨(id0, p), hm', rfl⟩)
-      split
-      · exact unserProps_single_fault id p d e rest acc hm' hnd' hl hdis hbad
-          (fun id' p' d' hmem hne' hl' => hothers id' p' d' (List.mem_cons_of_mem _ hmem) hne' hl')
-      · rename_i d0 hd0
-        obtain ⟨hdis0, r0, hr0⟩ := hothers id0 p0 d0 List.mem_cons_self hne hd0
-        simp only [hdis0, Bool.false_eq_true, if_false, hr0, addSeg]
-        refine unserProps_single_fault id p d e rest _ hm' hnd' ?_ hdis hbad ?_
-        · rw [lookupS_setKey_ne _ _ (Ne.symm hne)]; exact hl
-        · intro id' p' d' hmem hne' hl'
-          have hne0 : id' ≠ id0 := by
-            intro he; subst he
-            simp only [List.map_cons, List.nodup_cons] at hnd
-            exact hnd.1 (List.mem_map.mpr ⟨(id', p'), hmem, rfl⟩)
-          rw [lookupS_setKey_ne _ _ hne0] at hl'
-          exact hothers id' p' d' (List.mem_cons_of_mem _ hmem) hne' hl'
-
+/-- If the value of the present property `id` is the only fault - every EARLIER entry of the
+    (defaulted) map is accepted by its property's type - the object reports the value's error
+    with the property name prefixed. -/
 theorem C17_obj_property (x : Ext) (fuel : Nat) (env : Env) (oid : String) (props : List (String × PropT))
-    (sh : MapShape) (kvs : List (V × V)) (skvs m : List (String × V)) (id : String) (p : PropT) (d : V) (e : Err)
+    (sh : MapShape) (kvs : List (V × V)) (skvs pre post pre' : List (String × V)) (id : String) (p : PropT) (d : V) (e : Err)
     (hs : strKeys? kvs = some skvs) (hdecl : ∀ kv, kv ∈ skvs → hasKey kv.1 props = true)
-    (hdef : applyDefaults props skvs = .ok m)
-    (hmem : (id, p) ∈ props) (hnd : (props.map Prod.fst).Nodup)
-    (hl : lookupS id m = some d) (hdis : p.disabled = false) (hbad : run x fuel .U env p.ty d = .err e)
-    (hothers : ∀ id' p' d', (id', p') ∈ props → id' ≠ id → lookupS id' m = some d' →
-        p'.disabled = false ∧ ∃ r, run x fuel .U env p'.ty d' = .ok r) :
+    (hdef : applyDefaults props skvs = .ok (pre ++ (id, d) :: post))
+    (hl : lookupS id props = some p) (hdis : p.disabled = false) (hbad : run x fuel .U env p.ty d = .err e)
+    (hpre : AllSV (objEntryU (run x fuel) env props) pre pre') :
     run x (fuel + 1) .U env (.obj oid props) (.map sh kvs) = .err ⟨true, id :: e.path⟩ := by
   have hany : (skvs.any fun kv => !hasKey kv.1 props) = false := by
     cases h : skvs.any fun kv => !hasKey kv.1 props with
@@ -237,7 +183,7 @@ theorem C17_obj_property (x : Ext) (fuel : Nat) (env : Env) (oid : String) (prop
       rw [hdecl kv hkv] at hk
       simp at hk
   simp only [run, runObj, objRaw, V.mapEntries?, hs, hany, hdef, Out.bind, Bool.false_eq_true, if_false]
-  rw [unserProps_single_fault id p d e props m hmem hnd hl hdis hbad hothers]
+  rw [forSV_err_first hpre (e := ⟨true, id :: e.path⟩) (by simp [objEntryU, hl, hdis, hbad, addSeg])]
 
 theorem interdeps_go_cons (isSet : String → Bool) (id : String) (p : PropT) (rest : List (String × PropT)) :
     interdeps.go isSet ((id, p) :: rest) =
